@@ -40,7 +40,7 @@ def base(chk, prop, passes_note):
 
 
 def finish(chk, prop, proofs_ok, plog, found):
-    if (not proofs_ok or chk.corr["disagreements"]) and not found:
+    if (not proofs_ok or chk.corr["disagreements"]) and not chk.has_failing_input():
         what = [("%s (%s): %s" % (n, r, d)) for n, r, ok, d in chk.obligations if not ok]
         what += [json.dumps(d)[:300] for d in chk.model_disagreements[:5]]
         chk.violation("%s:unproved" % prop, "proof obligations or correspondence broken, no failing input found: " + "; ".join(what)[:600],
